@@ -106,7 +106,7 @@ CLAIMED = {
                      "parent (also on the bounds, coincident parents), probability, distribution index and iteration number: children have the "
                      "parents' dimension, lie inside the box, and every power and division on the way is real-valued and defined (safety "
                      "obligations). gen_number / gen_vector (random designs, 1e-12 / declared precision), the three swarm update_position variants "
-                     "and GeneticAlgorithm.generate (children inside the box) are verified as well. The composition inside the run loops and the "
+                     "the OMOPSO / SMPSO turbulence steps and GeneticAlgorithm.generate (children inside the box) are verified as well. The composition inside the run loops and the "
                      "DoE generators are bounded run-time checks only.",
                 note=TRUST + " Real arithmetic; pow axioms; run-level orchestration bounded (objective records every vector).",
                 tech="deductive verification: postconditions + safety obligations (division, real-valued power) over the real operators (pyvc/z3, nlsat for the polynomial side conditions); bounded run-time contracts for whole runs"),
